@@ -1,8 +1,11 @@
+#![feature(allocator_api)]
 #![feature(const_destruct)]
 // Unit symfold (C18): MergeOnce / MergeOnceWith / SymmetricDiff from incremental-map/src/symmetric_fold.rs
 use vstd::prelude::*;
 use std::iter::Peekable;
 use std::cmp::Ordering;
+use std::rc::Rc;
+use std::ops::Deref;
 use std::collections::{btree_map::Keys, BTreeMap};
 
 verus! {
@@ -66,6 +69,10 @@ pub assume_specification<I: Iterator>[ <Peekable<I> as Iterator>::next ](p: &mut
         pk(old(p)).len() > 0 ==> r == Some(pk(old(p))[0]) && pk(final(p)) == pk(old(p)).drop_first();
 
 pub assume_specification<T>[ core::mem::drop ](x: T);
+
+pub assume_specification<T: ?Sized, A: std::alloc::Allocator>[ <Rc<T, A> as Deref>::deref ](rc: &Rc<T, A>) -> (r: &T)
+    ensures r == &**rc;
+
 
 pub assume_specification<T: std::marker::Destruct, U: std::marker::Destruct>[ Option::<T>::zip ](a: Option<T>, b: Option<U>) -> (r: Option<(T, U)>)
     ensures r == (match (a, b) { (Some(x), Some(y)) => Some((x, y)), _ => None });
@@ -500,6 +507,43 @@ impl<'a> SymmetricDiff<'a> {
 //@|         folded(diff_stream(merged(keys_seq(this), keys_seq(other)), this@, other@), init, f, r), // [folds-f-over-exactly-the-symmetric-difference-of-self-and-other]
 //@end
 
+
+
+//@extract fn Rc<BTreeMap>::symmetric_fold
+//@ file: incremental-map/src/symmetric_fold.rs
+//@ impl: impl<K: Ord, V: PartialEq> SymmetricFoldMap<K, V> for Rc<BTreeMap<K, V>>
+//@ name: symmetric_fold
+//@ as: fn rc_btree_symmetric_fold<'a, R, F: FnMut(R, (&'a u64, DiffElement<&'a u64>)) -> R>(this: &'a Rc<BTreeMap<u64, u64>>, other: &'a Rc<BTreeMap<u64, u64>>, init: R, f: F) -> (r: R)
+//@ rule R3: `self.deref()` => `this.deref()` x1
+//@ rule R3: `self_target.symmetric_diff(other_target)` => `btree_symmetric_diff(self_target, other_target)` x1
+//@ rule R8: `.fold(init, f)` => `.vx_fold(init, f)` x1
+//@ props: C18
+//@ contract:
+//@|     ensures
+//@|         folded(diff_stream(merged(keys_seq(&**this), keys_seq(&**other)), (**this)@, (**other)@), init, f, r), // [folds-f-over-exactly-the-symmetric-difference-of-self-and-other]
+//@end
+
+// ---- OrdMap: im_rc's own diff enumerates; only the adapter that re-tags its items is under contract ----
+/// trusted mirror of im_rc::ordmap::DiffItem (im-rc 15.1.0, src/ord/map.rs)
+pub enum DiffItem<'a, K, V> {
+    Add(&'a K, &'a V),
+    Update { old: (&'a K, &'a V), new: (&'a K, &'a V) },
+    Remove(&'a K, &'a V),
+}
+
+//@extract fn DiffElement::from_diff_item
+//@ file: incremental-map/src/im_rc.rs
+//@ impl: impl<'a, V> DiffElement<&'a V>
+//@ name: from_diff_item
+//@ as: fn from_diff_item<'a>(value: DiffItem<'a, u64, u64>) -> (r: (&'a u64, DiffElement<&'a u64>))
+//@ rule R3 re: `\bSelf::` => `DiffElement::` x3
+//@ props: C18
+//@ contract:
+//@|     ensures
+//@|         (value matches DiffItem::Add(k, v) ==> r == (k, DiffElement::Right(v))), // [added-to-self-means-only-in-other-Right]
+//@|         (value matches DiffItem::Remove(k, v) ==> r == (k, DiffElement::Left(v))), // [removed-from-self-means-only-in-self-Left]
+//@|         (value matches DiffItem::Update { old, new } ==> r == (old.0, DiffElement::Unequal(old.1, new.1))), // [update-is-Unequal-old-then-new]
+//@end
 
 // ---- C18, composed: what the fold visits, stated over the two maps only --------------------------------
 spec fn keys_of<'a>(s: Seq<&'a u64>, m: Map<u64, u64>) -> bool {
